@@ -126,8 +126,12 @@ class staterror_builder:
                 if mask_this_sample.any():
                     if modname not in masks:
                         masks[modname] = mask_this_sample
-                    else:
-                        assert (mask_this_sample == masks[modname]).all()
+                    elif not (mask_this_sample == masks[modname]).all():
+                        raise InvalidModifier(
+                            f"The staterror modifier '{parname}' is attached to different sets of"
+                            + " channel bins for different samples. All samples sharing a staterror"
+                            + " modifier must declare it in the same channels."
+                        )
 
             # extract sigmas using this modifiers mask
             sigmas = relerrs[masks[modname]]
